@@ -213,3 +213,100 @@ pub proof fn lemma_absdev_ring(d: Seq<f64>, index: int, count: int, mu: real)
         assert(d.subrange(0, index) + d.subrange(index, count) =~= d.subrange(0, count));
     }
 }
+
+// ---- Minimum / Maximum: padded chronological window, order only (exact, no arithmetic)
+pub open spec fn padp(x: f64) -> bool { fin(x) || pinf(x) }
+pub open spec fn padn(x: f64) -> bool { fin(x) || ninf(x) }
+pub open spec fn all_padp(s: Seq<f64>) -> bool { forall|i: int| 0 <= i < s.len() ==> padp(#[trigger] s[i]) }
+pub open spec fn all_padn(s: Seq<f64>) -> bool { forall|i: int| 0 <= i < s.len() ==> padn(#[trigger] s[i]) }
+pub open spec fn is_least(v: f64, s: Seq<f64>) -> bool {
+    &&& exists|j: int| 0 <= j < s.len() && s[j] == v
+    &&& forall|i: int| 0 <= i < s.len() ==> !ext_lt(#[trigger] s[i], v)
+}
+pub open spec fn is_greatest(v: f64, s: Seq<f64>) -> bool {
+    &&& exists|j: int| 0 <= j < s.len() && s[j] == v
+    &&& forall|i: int| 0 <= i < s.len() ==> !ext_lt(v, #[trigger] s[i])
+}
+pub open spec fn chron(d: Seq<f64>, cur: int) -> Seq<f64> { d.subrange(cur, d.len() as int) + d.subrange(0, cur) }
+pub open spec fn shift_push(w: Seq<f64>, x: f64) -> Seq<f64> { w.subrange(1, w.len() as int).push(x) }
+pub open spec fn all_eq(s: Seq<f64>, c: f64) -> bool { forall|i: int| 0 <= i < s.len() ==> #[trigger] s[i] == c }
+
+pub proof fn lemma_chron_index(d: Seq<f64>, cur: int, i: int)
+    requires 0 <= cur < d.len(), 0 <= i < d.len()
+    ensures chron(d, cur).len() == d.len(),
+        chron(d, cur)[i] == d[if i < d.len() - cur { i + cur } else { i - (d.len() - cur) }]
+{}
+pub proof fn lemma_least_rot(d: Seq<f64>, cur: int, v: f64)
+    requires 0 <= cur < d.len(), is_least(v, d)
+    ensures is_least(v, chron(d, cur))
+{
+    let n = d.len() as int;
+    let j0 = choose|j: int| 0 <= j < d.len() && d[j] == v;
+    let jj = if j0 >= cur { j0 - cur } else { j0 + n - cur };
+    lemma_chron_index(d, cur, jj);
+    assert(chron(d, cur)[jj] == v);
+    assert forall|i: int| 0 <= i < chron(d, cur).len() implies !ext_lt(#[trigger] chron(d, cur)[i], v) by {
+        lemma_chron_index(d, cur, i);
+    }
+}
+pub proof fn lemma_greatest_rot(d: Seq<f64>, cur: int, v: f64)
+    requires 0 <= cur < d.len(), is_greatest(v, d)
+    ensures is_greatest(v, chron(d, cur))
+{
+    let n = d.len() as int;
+    let j0 = choose|j: int| 0 <= j < d.len() && d[j] == v;
+    let jj = if j0 >= cur { j0 - cur } else { j0 + n - cur };
+    lemma_chron_index(d, cur, jj);
+    assert(chron(d, cur)[jj] == v);
+    assert forall|i: int| 0 <= i < chron(d, cur).len() implies !ext_lt(v, #[trigger] chron(d, cur)[i]) by {
+        lemma_chron_index(d, cur, i);
+    }
+}
+// writing x at the cursor and advancing it shifts the chronological window by one
+pub proof fn lemma_chron_step(d: Seq<f64>, cur: int, x: f64)
+    requires 0 <= cur < d.len()
+    ensures chron(d.update(cur, x), next_index(cur, d.len() as int)) =~= shift_push(chron(d, cur), x)
+{}
+
+// the (real) value of the least / greatest element of a padded window; unique by lemma_least_rv
+pub open spec fn win_min(s: Seq<f64>) -> real { rv(choose|v: f64| is_least(v, s)) }
+pub open spec fn win_max(s: Seq<f64>) -> real { rv(choose|v: f64| is_greatest(v, s)) }
+pub proof fn lemma_least_rv(v: f64, s: Seq<f64>)
+    requires is_least(v, s), fin(v), all_padp(s)
+    ensures rv(v) == win_min(s)
+{
+    let c = choose|c: f64| is_least(c, s);
+    let jv = choose|j: int| 0 <= j < s.len() && s[j] == v;
+    let jc = choose|j: int| 0 <= j < s.len() && s[j] == c;
+    assert(!ext_lt(s[jv], c));
+    assert(!ext_lt(s[jc], v));
+    assert(padp(s[jc]));
+    ax_class_excl(c);
+    ax_class_excl(v);
+}
+pub proof fn lemma_greatest_rv(v: f64, s: Seq<f64>)
+    requires is_greatest(v, s), fin(v), all_padn(s)
+    ensures rv(v) == win_max(s)
+{
+    let c = choose|c: f64| is_greatest(c, s);
+    let jv = choose|j: int| 0 <= j < s.len() && s[j] == v;
+    let jc = choose|j: int| 0 <= j < s.len() && s[j] == c;
+    assert(!ext_lt(c, s[jv]));
+    assert(!ext_lt(v, s[jc]));
+    assert(padn(s[jc]));
+    ax_class_excl(c);
+    ax_class_excl(v);
+}
+pub open spec fn fast_formula(lo: real, hi: real, x: real) -> real {
+    if lo == hi { 50real } else { (x - lo) / (hi - lo) * 100real }
+}
+pub proof fn lemma_fast_range(lo: real, hi: real, x: real)
+    requires lo <= x <= hi
+    ensures 0real <= fast_formula(lo, hi, x) <= 100real
+{
+    if lo != hi {
+        alg_div_le(x - lo, hi - lo);
+        let q = (x - lo) / (hi - lo);
+        assert(0real <= q * 100real <= 100real) by(nonlinear_arith) requires 0real <= q <= 1real;
+    }
+}
